@@ -261,7 +261,7 @@ CONSTANTS
   Vals,        \* tag values / single operands, class A
   SetVals,     \* operand-list elements, class A
   NumEdge,     \* numerals of class N
-  ArityB,      \* max number of children of a depth-1 node (class B)
+  ArityB,      \* 2: up to two children in class B; 3: also every triple over the core leaves
   WideB,       \* TRUE: the larger leaf set for class B
   WideC        \* TRUE: the larger leaf set for class C
 
@@ -311,7 +311,8 @@ L1Wide == L1Core \cup
     Leaf("", "eq", s_a, <<>>) }
 L1 == IF WideB THEN L1Wide ELSE L1Core
 
-TreesB == {Logic(op, cs) : op \in OpsAll, cs \in SeqsUpTo(L1, ArityB)}
+TreesB ==      {Logic(op, cs) : op \in OpsAll, cs \in SeqsUpTo(L1, 2)}
+          \cup (IF ArityB >= 3 THEN {Logic(op, cs) : op \in OpsAll, cs \in [1..3 -> L1Core]} ELSE {})
 TagsB  == {<<>>} \cup Tag1("k", {s_, s_a, s_ab, s_1, s_2, s_x1})
                  \cup (IF WideB THEN Tag1("j", {s_a}) \cup {<<[k |-> "j", v |-> s_a], [k |-> "k", v |-> s_a]>>} ELSE {})
 
